@@ -31,37 +31,6 @@ WRAPPERS = {'OP_EQ': ast.Eq, 'OP_NE': ast.NotEq, 'OP_GT': ast.Gt, 'OP_LT': ast.L
 MIRROR = {'OP_GT': 'OP_LT', 'OP_LT': 'OP_GT', 'OP_GE': 'OP_LE', 'OP_LE': 'OP_GE', 'OP_EQ': 'OP_EQ', 'OP_NE': 'OP_NE'}
 
 
-def _cmp_in_return(fn):
-    r = last_return(fn)
-    if r is None:
-        return None
-    cmps = [c for c in ast.walk(r.value) if isinstance(c, ast.Compare)]
-    return cmps[0] if len(cmps) == 1 else None
-
-
-class _Val(PyModel):
-    """Abstract operand: a value class, a sort key, a text form."""
-
-    def __init__(self, cls, key=None, text='', value=None):
-        self.cls = cls
-        self._key = key
-        self._text = text
-        self.value = value if value is not None else text
-        self.sort_precedence = key[0] if key else 0
-        self.calls = []
-
-    def _sort_key(self, other):
-        self.calls.append('_sort_key')
-        return self._key
-
-    def __str__(self):
-        return self._text
-
-    def __Blank__(self):
-        self.calls.append('__Blank__')
-        return self
-
-
 def _isinst(ctx):
     def isinst(val, refs):
         refs = refs if isinstance(refs, tuple) else (refs,)
@@ -75,17 +44,6 @@ def _models():
     m = {f'ext:operator.{n}': getattr(op, n) for n in ('lt', 'le', 'eq', 'ne', 'gt', 'ge')}
     m[XLT + 'ExcelType.cast_from_native'] = lambda v: v
     return m
-
-
-def _bool_result(out):
-    """Truth value carried by the returned Boolean(...) (or a plain bool)."""
-    v = out.value
-    if out.end != 'return':
-        return f'<{out.end} {out.value!r}>'
-    if isinstance(v, Rec) and 'cls' in v.f and v.get('cls') == XLT + 'Boolean':
-        a = v.get('args')
-        return a[0] if a else None
-    return v
 
 
 PYOPS = {'__lt__': lambda a, b: a < b, '__le__': lambda a, b: a <= b, '__eq__': lambda a, b: a == b,
@@ -177,16 +135,6 @@ def rule_2(ctx):
                 wrong.append(f'{a.f["value"]!r} {_SYMS[name]} {b.f["value"]!r} gives {got!r}, expected {want}')
         ctx.expect(not wrong, anchor, construct, '; '.join(wrong[:4]))
     ctx.floor(2, 'precedence facts')
-
-
-def asymmetric_overrides(ctx):
-    """True when a text on the left of a number or boolean is not ordered by type precedence (then a > b <=> b < a cannot be assumed)."""
-    from xlsa.guards import World
-    world = World()
-    try:
-        return _cmp(ctx, world, _T('1'), _N(5), '__lt__') is not False or _cmp(ctx, world, _T('zz'), _B(True), '__gt__') is not False
-    except Unmodelled:
-        return True
 
 
 def rule_3(ctx):
